@@ -14,7 +14,7 @@ func init() { registry["C12"] = propC12 }
 func propC12() *Property {
 	return &Property{
 		ID:          "C12",
-		Explanation: "Structural clauses of link numbering. Decided: (R1) in every markup renderer each label printed by style.Link / style.LinkBlock is the length of the link list taken immediately after its own append — no call that can append to the same list lies between the append and the evaluation of len — and every append has exactly one label; (R2) label and lookup are inverse: attachments are labelled len(bodyLinks)+i+1 for slot i and SelectLink(k) reads attachments[k-1-len(bodyLinks)] and bodyLinks[k-1] (linear forms composed to the identity); body/bodyLinks and bio/bioLinks come from the same GetMarkup call; Activity delegates rendering and selection to the same target; (R3) every index in the SelectLink implementations is provably within 0..len-1 (numbers outside 1..N open nothing); (R4) Markdown returns the link list of its HTML rendering unchanged; (R7) every producer whose results are stored into a link list and its error field (attachments/attachmentsErr, bodyLinks/bodyErr, bioLinks/bioErr) returns an empty list whenever its error can be non-nil — the renderers print no numbers when the error is set, while SelectLink looks at the list only; (R6) style.superscript prints digit k as the Unicode superscript of k for all ten digits and emits the decimal digits of the number most significant first (strings.Map over the decimal representation, a loop over it that appends, or a divide-by-ten loop that prepends). (R1, addition) from every append to a link list every way to a return of that function passes the label call that shows its number: no target is listed on a path that shows no number. (R9) a link number is typed digit by digit: exactly the ten digits are taken, a digit outside selection mode starts from an empty buffer, the mode is selection afterwards. (R1, addition) the text handed to a label call is not a slice or a strings.Trim* result: the number goes behind the whole rendering of what it labels. NOT decided: that superscripts survive wrapping at every width and that link order is width-independent (string values).",
+		Explanation: "Structural clauses of link numbering. Decided: (R1) in every markup renderer each label printed by style.Link / style.LinkBlock is the length of the link list taken immediately after its own append — no call that can append to the same list lies between the append and the evaluation of len — and every append has exactly one label; (R2) label and lookup are inverse: attachments are labelled len(bodyLinks)+i+1 for slot i and SelectLink(k) reads attachments[k-1-len(bodyLinks)] and bodyLinks[k-1] (linear forms composed to the identity); body/bodyLinks and bio/bioLinks come from the same GetMarkup call; Activity delegates rendering and selection to the same target; (R3) every index in the SelectLink implementations is provably within 0..len-1 (numbers outside 1..N open nothing); (R4) Markdown returns the link list of its HTML rendering unchanged; (R7) every producer whose results are stored into a link list and its error field (attachments/attachmentsErr, bodyLinks/bodyErr, bioLinks/bioErr) returns an empty list whenever its error can be non-nil — the renderers print no numbers when the error is set, while SelectLink looks at the list only; (R6) style.superscript prints digit k as the Unicode superscript of k for all ten digits and emits the decimal digits of the number most significant first (strings.Map over the decimal representation, a loop over it that appends, or a divide-by-ten loop that prepends). (R1, addition) from every append to a link list every way to a return of that function passes the label call that shows its number: no target is listed on a path that shows no number. (R9) a link number is typed digit by digit: exactly the ten digits are taken, a digit outside selection mode starts from an empty buffer, the mode is selection afterwards. (R1, addition) the text handed to a label call is not a slice or a strings.Trim* result: the number goes behind the whole rendering of what it labels. (R10 = C07.R2) explicit panics reachable from key handling are discharged: a number that labels nothing opens nothing. NOT decided: that superscripts survive wrapping at every width and that link order is width-independent (string values).",
 		Assumptions: []string{"len/append semantics of Go slices"},
 		Rules: []Rule{
 			{ID: "C12.R1", Title: "a link's label is taken at its own append", Floor: 6, Run: c12R1},
@@ -24,6 +24,7 @@ func propC12() *Property {
 			{ID: "C12.R5", Title: "which targets are numbered does not depend on the width", Floor: 3, Run: c12R5},
 			{ID: "C12.R6", Title: "the printed label shows the number: superscript digit table, most significant digit first", Floor: 2, Run: c12R6},
 			{ID: "C12.R7", Title: "a link list that comes with an error is empty: no link without a number can be selected", Floor: 3, Run: c12R7},
+			{ID: "C12.R10", Title: "a number that labels nothing opens nothing — it does not end the program: explicit panics reachable from key handling are discharged (same instances as C07.R2)", Floor: 3, Run: c07R2},
 			{ID: "C12.R9", Title: "a link number is typed digit by digit: Update takes exactly the ten digits, a digit typed outside selection mode starts a fresh number, one typed in it extends the number, and the mode is selection afterwards", Floor: 3, Run: c12R9},
 			{ID: "C12.R8", Title: "opening one link does not change what the next number opens: the hook's argv is a private copy of the configuration (same instances as C20.R2)", Floor: 2, Run: c20R2},
 		},
